@@ -1,10 +1,13 @@
 package proxy
 
 import (
+	"context"
+
 	"go.temporal.io/server/api/adminservice/v1"
 	replicationv1 "go.temporal.io/server/api/replication/v1"
 	"go.temporal.io/server/client/history"
 	"go.temporal.io/server/common/channel"
+	"google.golang.org/grpc"
 )
 
 func channelNewShutdownOnce() channel.ShutdownOnce { return channel.NewShutdownOnce() }
@@ -106,7 +109,7 @@ func verifHarness_C08_senders() {
 	e.emitBatch(src, 0)
 	verifQuiesce()
 
-	var intraSrc *history.ClusterShardID
+	var intraRcv *intraProxyStreamReceiver
 	// intra=1: a second active receiver, of the kind that relays a peer proxy's source shard, holding
 	// a watermark: it replays that watermark to newly registered target shards as well
 	if verifParam("intra", 0) == 1 {
@@ -114,7 +117,7 @@ func verifHarness_C08_senders() {
 			targetShardID: shard, sourceShardID: history.ClusterShardID{ClusterID: src.shard.ClusterID, ShardID: 9},
 			lastWatermark: &replicationv1.WorkflowReplicationMessages{ExclusiveHighWatermark: 7}}
 		e.sm.RegisterActiveReceiver(ir.sourceShardID, ir)
-		intraSrc = &ir.sourceShardID
+		intraRcv = ir
 		verifReach("intra-proxy-receiver-active")
 	}
 	var streams []*rtTarget
@@ -182,8 +185,8 @@ func verifHarness_C08_senders() {
 	verifQuiesce()
 	verifQuiesce()
 	_ = rcv
-	if intraSrc != nil {
-		e.sm.UnregisterActiveReceiver(*intraSrc) // the peer's stream ends too
+	if intraRcv != nil {
+		e.sm.UnregisterActiveReceiver(intraRcv.sourceShardID, intraRcv) // the peer's stream ends too
 	}
 	c08CheckEmpty(e, "end")
 }
@@ -321,4 +324,62 @@ func verifHarness_C08_closedWindow() {
 		verifAssert(!ok, "closed-window:ack-hand-off-to-a-closed-channel-is-reported-undelivered")
 	}
 	verifReach("closed-window-survived")
+}
+
+// ---- intra-proxy receivers (streams from a peer proxy that owns the source shard)
+
+var c08NextPeerStream *rtSource
+
+// redirect target for adminservice.NewAdminServiceClient: the peer's admin service
+func verifStub_NewAdminServiceClient(cc grpc.ClientConnInterface) adminservice.AdminServiceClient {
+	return &rtAdminClient{src: c08NextPeerStream}
+}
+
+// verifHarness_C08_intraReceivers: two live intra-proxy receivers for the same source shard (one per
+// local target shard it feeds, or two incarnations of one): when one of them ends, the other - the
+// newest live one - must still be registered for watermark replay, and once both have ended nothing
+// remains registered.
+func verifHarness_C08_intraReceivers() {
+	verifConfig("preempt", verifParam("preempt", 0))
+	e := rtNewEnv(1, 1)
+	sm := c08Impl(e)
+	source := history.ClusterShardID{ClusterID: 1, ShardID: 1}
+	mk := func(targetShard int32) (*intraProxyStreamReceiver, *rtSource) {
+		s := e.newSource(0)
+		r := &intraProxyStreamReceiver{logger: e.logger, shardManager: e.sm, intraMgr: sm.intraMgr, peerNodeName: "peer",
+			targetShardID: history.ClusterShardID{ClusterID: rtTargetCluster, ShardID: targetShard}, sourceShardID: source,
+			shutdown: channelNewShutdownOnce()}
+		return r, s
+	}
+	sameTarget := verifChoose("second-receiver", 2) == 1 // 0: for another local target shard, 1: a new incarnation for the same one
+	t2 := int32(2)
+	if sameTarget {
+		t2 = 1
+	}
+	r0, s0 := mk(1)
+	c08NextPeerStream = s0
+	go func() { _ = r0.Run(context.Background(), e.sm, nil) }()
+	verifQuiesce()
+	ar, ok := sm.GetActiveReceiver(source)
+	verifAssert(ok && ar == ActiveReceiver(r0), "intra:first-receiver-registered")
+	r1, s1 := mk(t2)
+	c08NextPeerStream = s1
+	go func() { _ = r1.Run(context.Background(), e.sm, nil) }()
+	verifQuiesce()
+	ar, ok = sm.GetActiveReceiver(source)
+	verifAssert(ok && ar == ActiveReceiver(r1), "intra:newest-receiver-registered")
+	// the older stream ends
+	verifAction("older-intra-stream-ends")
+	close(s0.broken)
+	verifQuiesce()
+	verifQuiesce()
+	verifReach("older-intra-receiver-ended")
+	ar, ok = sm.GetActiveReceiver(source)
+	verifAssert(ok && ar == ActiveReceiver(r1), "intra:live-receiver-still-registered-after-the-older-one-ended")
+	close(s1.broken)
+	verifQuiesce()
+	verifQuiesce()
+	_, ok = sm.GetActiveReceiver(source)
+	verifAssert(!ok, "intra:nothing-registered-after-both-ended")
+	verifAssert(verifLiveThreads() == 0, "intra:no-worker-left-running")
 }
